@@ -2,7 +2,7 @@
 import itertools, os, random, re, subprocess, tempfile, shutil
 from vlib import *
 from l2common import *
-import applyc, streams, gen, emit
+import applyc, streams, gen, emit, scen
 
 THEOREMS = {"C12": [], "C13": [], "C14": [], "C20": []}
 
@@ -192,6 +192,19 @@ def run_c13(run_, rng, tier, exe):
         if s["secs"][0]["fmt"] == "normal":
             s["opts"]["file"] = s["secs"][0]["path"]
         scns.append(s)
+    # a patch of which only the first hunk is already in the file, run with -N: skipped, every hunk rejected, nothing shifted
+    for _ in range(100 if q else 1500):
+        while True:
+            sec = scen.section(rng, "f", kind="change", fmt=rng.choice(["unified", "context"]), width=rng.choice([1, 2, 3]), nonl=False)
+            if len(sec["hs"]) >= 3 and any(h["nc"] != h["oc"] for h in sec["hs"][:-1]):
+                break
+        h0 = sec["hs"][0]
+        pos = h0["os"] - 1 if h0["oc"] else h0["os"]
+        a = list(sec["a"])
+        part = a[:pos] + [(t, nl) for o, t, nl in h0["body"] if o != "-"] + a[pos + h0["oc"]:]
+        s0 = scen.base_scenario(rng, [sec], opts=dict(rng.choice([{"N": 1}, {"N": 1, "rf": "context"}, {"N": 1, "rf": "unified"}])))
+        s0["tree"]["f"] = ("R", 0o644, emit.file_bytes(part))
+        scns.append(s0)
     res, b2, m2 = l2_family(run_, exe, scns, lambda s, r: None, cls=lambda s, r: "rejects exit %d" % r["exit"])
     parse_cases, who = [], []
     for i, (s, r) in enumerate(zip(scns, res)):
@@ -210,9 +223,12 @@ def run_c13(run_, rng, tier, exe):
             hs0 = [dict(h, body=streams.normalise_groups(h["body"])) for h in hs0]
         verdicts = {int(m.group(1)): m for m in applyc.MSG_RE.finditer(out)}
         exp, shift = [], 0
+        skipped = "Skipping patch" in out
         for k, h in enumerate(hs0, 1):
             m = verdicts.get(k)
-            if m is not None and m.group(2) == "FAILED":
+            if skipped:
+                exp.append(h)                       # nothing was applied: every hunk is a reject, none is shifted
+            elif m is not None and m.group(2) == "FAILED":
                 exp.append(dict(h, os=h["os"] + shift, ns=h["ns"] + shift))
             else:
                 shift += h["nc"] - h["oc"]
@@ -312,7 +328,44 @@ def run_c14(run_, rng, tier, exe):
             if c["b"] and ends_nl == last_n:
                 bad.append((i, "final newline: output ends %s a newline, last line %s one" % ("with" if ends_nl else "without", "lacks" if last_n else "has"),
                             dict(case=c2[i], impl=i2[i])))
-    return bad, mism
+    # through the parser: diffs in every format whose changed last line has no newline, CRLF files and patches, all four modes
+    scns = []
+    for _ in range(200 if q else 3000):
+        a = gen.rand_file(rng, maxlen=8, small=True, crlf=rng.choice([0, 0.6]), nonl=0.4)
+        if not a:
+            a = [("x", "L")]
+        ops = [(" ", l) for l in a]
+        # change the last line (and maybe another one)
+        for i in ([len(ops) - 1] + ([rng.randrange(len(ops))] if rng.random() < 0.5 else [])):
+            if ops[i][0] == " ":
+                t, nl = ops[i][1]
+                ops[i] = ("-", (t, nl))
+                ops.insert(i + 1, ("+", (t + "2", rng.choice([nl, nl, "N" if i == len(ops) - 1 else nl]))))
+        ops = applyc.fix_nonl(ops)
+        a2 = [l for o, l in ops if o != "+"]; b2_ = [l for o, l in ops if o != "-"]
+        fmt = rng.choice(["unified", "context", "context", "normal"])
+        hs = gen.hunks_from_ops(ops, rng.choice([0, 1, 3]) if fmt != "normal" else 0)
+        if fmt == "unified":
+            text = emit.emit_unified("a/f", "b/f", hs)
+        elif fmt == "context":
+            text = emit.emit_context("a/f", "b/f", hs)
+        else:
+            text = b"Index: b/f\n" + emit.emit_normal(ops)
+        mode = rng.choice(["native", "lf", "crlf", "keep"])
+        scns.append(dict(tree={"f": ("R", 0o644, emit.file_bytes(a2)), "p.diff": ("R", 0o644, text)}, opts={"p": 1, "i": "p.diff", "nl": mode, "F": 0},
+                         umask=0o022, want=applyc.lines_bytes(mode, b2_), fmt=fmt, mode=mode))
+
+    def judge(s, r):
+        got = r["tree"].get("f")
+        if r["exit"] != 0:
+            return "exit %d applying a %s diff under --newline-output=%s" % (r["exit"], s["fmt"], s["mode"])
+        if got is None or got[2] != s["want"]:
+            return "%s diff under --newline-output=%s: bytes written are not what the mode promises" % (s["fmt"], s["mode"])
+        return None
+    _, b3, m3 = l2_family(run_, exe, scns, judge, cls=lambda s, r: "L2 %s %s" % (s["fmt"], s["mode"]))
+    for i, d, rep in b3:
+        rep["expected"] = scns[i]["want"].decode("latin-1")
+    return bad + b3, mism + m3
 
 
 # ---------------------------------------------------------------- C20
